@@ -86,11 +86,14 @@ pub fn check_pair(cx: &mut Cx, a: u64, b: u64) {
                 v
             });
             chkb("iter-fold-after-next", folded == rest, true);
+            chkb("iter-skip-64-after-next", mk().skip(64).next().is_none() && mk().skip(usize::MAX).next().is_none(), true);
+            let stepped: Vec<usize> = mk().step_by(65).map(|s| s as usize).collect();
+            chkb("iter-step_by-65-after-next", stepped == rest.iter().take(1).copied().collect::<Vec<_>>(), true);
             chkb("iter-last-after-next", mk().last().map(|s| s as usize) == rest.last().copied(), true);
-            for n in [0usize, 1, rest.len().saturating_sub(1), rest.len(), rest.len() + 2] {
+            for n in [0usize, 1, rest.len().saturating_sub(1), rest.len(), rest.len() + 2, 63, 64, 65, 127, 128, 1 << 32, usize::MAX] {
                 let mut it = mk();
                 let g = it.nth(n).map(|s| s as usize);
-                chkb("iter-nth-after-next", g == rest.get(n).copied() && it.len() == rest.len().saturating_sub(n + 1), true);
+                chkb("iter-nth-after-next", g == rest.get(n).copied() && it.len() == rest.len().saturating_sub(n.saturating_add(1)), true);
             }
         }
         chkb("iteration-remaining-length", ok_len, true);
